@@ -155,14 +155,32 @@ def build_n(ncells):
                 assert st.cells[fidx].startswith(head)
                 st.cells[fidx] = head + ' fill=9' + st.cells[fidx][len(head):]     # before any $ comment
                 st.filled = NUMS[fidx]
-            st.cells.insert(upos, '77 0 -%d u=9 imp:n=1' % (ncells + 2) if not any_none else '77 0 -%d u=9' % (ncells + 2))
-            st.cells.insert(upos + 1, '78 0 %d u=9 imp:n=1' % (ncells + 2) if not any_none else '78 0 %d u=9' % (ncells + 2))
+            # the importance of a cell that is NOT at level 0 decides nothing: a universe cell of importance 0
+            # (keyword, or its position on the data cards) leaves every level-0 cell, the pieces of the filled
+            # one included, as they are with importance 1 (differential oracle in check_state)
+            uz = ch.choose('universe-cell-importance-0', [None, 0, 1]) if st.filled is not None else None
+            ui = [0 if uz == k else 1 for k in (0, 1)]
+            st.cells.insert(upos, '77 0 -%d u=9 imp:n=%d' % (ncells + 2, ui[0]) if not any_none else '77 0 -%d u=9' % (ncells + 2))
+            st.cells.insert(upos + 1, '78 0 %d u=9 imp:n=%d' % (ncells + 2, ui[1]) if not any_none else '78 0 %d u=9' % (ncells + 2))
             st.surfs.append('%d so 1' % (ncells + 2))
-            dn[upos:upos] = [1, 1]; dp[upos:upos] = [1, 1]
+            dn1, dp1 = list(dn), list(dp)
+            dn1[upos:upos] = [1, 1]; dp1[upos:upos] = [1, 1]
+            dn[upos:upos] = ui; dp[upos:upos] = ui
+            st.uzero = uz
         if any_none:
             st.data.append('imp:n ' + ' '.join(compress(dn, mode)))
             if use_p_card:
                 st.data.append('imp:%s ' % part2 + ' '.join(compress(dp, mode)))
+        if getattr(st, 'uzero', None) is not None:
+            ref = St(st.title)
+            ref.cells = [re.sub(r'^(7[78] 0 -?\d+ u=9 imp:n=)0', r'\g<1>1', c) for c in st.cells]
+            ref.surfs = list(st.surfs)
+            if any_none:
+                ref.data.append('imp:n ' + ' '.join(compress(dn1, mode)))
+                if use_p_card:
+                    ref.data.append('imp:%s ' % part2 + ' '.join(compress(dp1, mode)))
+            st.ref_text = ref.deck_text
+            assert st.ref_text != st.deck_text
         if not any(st.expected.values()):
             ch.reject()
         # the note does not depend on which blocks of the output are switched off
@@ -242,8 +260,22 @@ def check_state(scn, st, corrupt=False):
     # the end-of-run note: the paragraph that starts with NOTE, whatever its wording and layout
     m = re.search(r'\bNOTE\b(.*?)(\n[ \t]*\n|\Z)', r.stdout, re.S)
     noted = sorted(int(x) for x in re.findall(r'(?<![\w.])\d+(?![\w.])', m.group(1))) if m else []
+    if getattr(st, 'uzero', None) is not None:
+        # the property speaks of level-0 cells only: the unchanged converter also names a universe cell of
+        # importance 0 in the note (its pieces are written all the same) - not demanded, not forbidden
+        noted = [n for n in noted if n not in (77, 78)]
     if noted != dropped:
         bad.append('NOTE lists %s, expected %s' % (noted, dropped))
+    if getattr(st, 'uzero', None) is not None and not bad:
+        # same deck with every universe cell at importance 1: same volumes, same pieces, same note
+        ref = env.run(st.ref_text, st.options)
+        if not ref.ok:
+            bad.append('the deck with importance 1 on the universe cells fails: %s' % ref.brief())
+        else:
+            t4r = t4read.parse(ref.t4)
+            sig = lambda t: sorted((v, tuple(map(tuple, t.provenance(v)))) for v in t.nonvirtual())
+            if sig(t4) != sig(t4r):
+                bad.append('importance 0 on a universe cell changes the volumes: %s, with importance 1 %s' % (sig(t4), sig(t4r)))
     if bad:
         return verdict(False, st, cls={'kind': 'importance'}, msg='%s\n%s' % ('\n'.join(bad), st.deck_text),
                        out=sha(r.body))
